@@ -25,7 +25,7 @@ claim("C08", "proof",
       "enforced on it with cut points at the round labels: every round == ref_round, jump-table dispatch enters at "
       "first_round, callee-saved registers restored, only *state written. All inputs are symbolic: a proof, not a sample.",
       "Trusted for the assembly: the lifter's instruction table and the calling convention (stated in the lifter and in "
-      "the evidence). The i386, the three RISC-V, the AArch64, ARMv6, ARMv7-M and ARMv6-M assembly permutations likewise (tools/lift_i386.py, lift_riscv.py, lift_arm64.py, lift_arm32.py, lift_xtensa.py, lift_m68k.py incl. Xtensa and m68k). Not covered: the AVR5 assembly backend; the byte operations of the 32-bit bit-sliced backend are "
+      "the evidence). The i386, the three RISC-V, the AArch64, ARMv6, ARMv7-M and ARMv6-M assembly permutations likewise (tools/lift_i386.py, lift_riscv.py, lift_arm64.py, lift_arm32.py, lift_xtensa.py, lift_m68k.py, lift_avr.py incl. Xtensa, m68k and AVR5): all twelve plain assembly permutations are covered; the byte operations of the 32-bit bit-sliced backend are "
       "decided by enumeration of constant (offset, size) pairs (sample in the quick tier, all 861 pairs in the thorough tier), "
       "those of the direct-xor/generic backend in the thorough tier. Trusted: CBMC/CaDiCaL, the reference transcription in spec/spec_perm.h (cross-checked "
       "against the KAT vectors natively).",
@@ -149,15 +149,15 @@ claim("C19", "proof",
 claim("C18", "other",
       "x86 part by contract, the rest by static facts. The five x86-64 assembly files (core permutation, masked x2/x3/x4 "
       "permutations, masked-word toolkit: what the default build and the test suite run), the i386 permutation and the three "
-      "RISC-V permutations (RV64I, RV32I, RV32E) and the AArch64, ARMv6, ARMv7-M, ARMv6-M, Xtensa and m68k permutations are lifted to C instruction by instruction on every run and proved: permutation == specification for all states and start rounds with its frame; "
+      "RISC-V permutations (RV64I, RV32I, RV32E) and the AArch64, ARMv6, ARMv7-M, ARMv6-M, Xtensa, m68k and AVR5 permutations are lifted to C instruction by instruction on every run and proved: permutation == specification for all states and start rounds with its frame; "
       "masked permutations round by round on the unmasked state; word functions as the C toolkit; callee-saved registers "
       "restored, stack balanced, no access outside the argument objects. Static facts from the working tree on every run: all "
       "18 .S files are byte-for-byte their generators' output; no x86-64 object (assembled with the repository's assembler "
       "options) lacks a non-executable .note.GNU-stack, and the other files either carry the directive or the build passes "
       "--noexecstack. The latter found that libascon.so was linked with an executable stack (repaired).",
-      "The three AVR5 files are NOT verified against the specification or their ABIs (no lifter, no cross tools): for "
+      "The two masked AVR5 files are NOT verified against the specification or their ABIs (no lifter, no cross tools): for "
       "them only generator equality and the executable-stack text fact are checked. Lifter instruction table and calling "
-      "conventions trusted. Level 'other': the static facts are not proofs and the contract part covers 15 of 18 files.",
+      "conventions trusted. Level 'other': the static facts are not proofs and the contract part covers 16 of 18 files.",
       "CBMC contracts on mechanically lifted assembly + generator rebuild/diff + readelf on assembled objects", "4/C18")
 
 claim("C15", "proof",
